@@ -172,7 +172,7 @@ def walk_instances(seed, n):
 
 def corpus(tier, seed, n=None, steps=None, chunk=20, instances=None, tag="walk"):
     if instances is None:
-        n = n or (60 if tier == "quick" else 600)
+        n = n or (154 if tier == "quick" else 660)
         steps = steps or (45 if tier == "quick" else 120)
         d = common.cache_dir(tag, tier, seed, n, steps)
         mp = os.path.join(d, "meta.json")
